@@ -166,7 +166,7 @@ class TimeCheck:
                          _logger=lg) for k in range(6)]
 
         def key(e):
-            return (e.time.to(EventTime.Unit.US).time, e.event_type.value,
+            return (e.time.to(EventTime.Unit.US).time, common.EVENT_RANK[e.event_type.name],
                     e.task.unique_name if e.task is not None else "")
 
         def mk(t, ty):
